@@ -75,6 +75,10 @@ def aggregate_cases():
     add(A3 + '\tvar w: W = W { arr: a, n: g(a) };\n', 'reject:531', 'whole array copied into a structure literal before a call in the same statement')
     add(A3 + '\tvar b: [3]i32 = [4, 5, 6];\n\tvar r: i32 = g(a);\n\tb = a;\n', 'reject:531', 'whole array copied in the statement after a call')
     add(A3 + '\tvar b: [2][3]i32 = [[0, 0, 0], [0, 0, 0]];\n\tvar r: i32 = h2(g(a), a);\n\tb[g(a)] = a;\n', 'reject:531', 'whole array copied into an element selected by a call')
+    SL = '\tvar alice = "Alice";\n\tvar x: []char8 = format!("Hello ", alice);\n'
+    add(SL + '\tvar n: usize = |x|;\n', 'accept', 'a local slice is read')
+    add(SL + '\tx = format!("Bye ", alice);\n', 'reject:530', 'a local slice (a view, not a var of its own) is reassigned')
+    add(SL + "\tx[0] = 'J';\n", 'reject:530', 'an element is written through a local slice (a view)')
     return c
 
 
